@@ -1374,7 +1374,8 @@ def classify(res: dict[str, Any], args: list[str]) -> tuple[str, str] | None:
                 continue
             if MSG_RE.match(ln) or MSG_NOLINE_RE.match(ln):
                 continue
-            return "malformed-line", f"stdout line is not '<file>:<line>: <severity>: ...': {ln[:160]!r}"
+            mcode = re.search(r"\[([a-z][a-z0-9-]*)\]\s*$", ln)      # the error code of the split message names the culprit
+            return ("malformed-line:" + mcode.group(1)) if mcode else "malformed-line", f"stdout line is not '<file>:<line>: <severity>: ...': {ln[:160]!r}"
     if st == 0 and re.search(r": error: ", out):
         return "status0-with-error", "exit status 0 although an error line was printed"
     if st == 1 and not out.strip() and not err.strip():
@@ -1455,7 +1456,9 @@ def confirm_subprocess(job: dict[str, Any], timeout: float = PER_FILE_TIMEOUT) -
     d = tempfile.mkdtemp(prefix="c20-sub-")
     try:
         write_job_files(os.path.join(d, "job"), job["files"])
-        cmd = [vlib.PY, "-X", "faulthandler", "-m", "mypy", "--no-incremental", "--cache-dir", os.devnull, "--show-traceback",
+        # a real (private, temporary) cache directory: with --cache-dir=/dev/null the serialisers never run and e.g. the
+        # UnicodeEncodeError of cache.write_literal on a lone surrogate is not reached
+        cmd = [vlib.PY, "-X", "faulthandler", "-m", "mypy", "--no-incremental", "--cache-dir", os.path.join(d, "cache"), "--show-traceback",
                "--no-error-summary", "--no-color-output"] + list(job["args"]) + list(job["targets"])
         t = time.time()
         try:
@@ -2866,6 +2869,18 @@ def run(ctx: vlib.Ctx) -> None:
 def replay(ctx: vlib.Ctx, path: str) -> None:
     d = json.load(open(path))
     rep = d.get("replay", d)
+    if rep.get("kind") == "daemon-history" and (rep.get("cmds") or any(v is None for st_ in rep["history"] for v in st_.values())):
+        # scripted life-cycle history (steps are deltas; None = delete)
+        evs = daemon_histories([{"name": "replay", "steps": rep["history"], "cmds": rep.get("cmds") or ["check"] * len(rep["history"])}])
+        for ev in evs:
+            print(json.dumps({k: v for k, v in ev.items() if k != "history"}, indent=1)[:3000])
+            if ev.get("step") != "summary":
+                kd = classify_daemon(ev)
+                if kd is not None:
+                    ctx.violation(kd[0], kd[1], rep)
+        if not ctx.violations:
+            ctx.log("replay: the daemon now answers every request of the history")
+        return
     if rep.get("kind") == "daemon-history":
         rs = daemon_script(rep["history"])
         for files, (st, out, hung) in zip(rep["history"], rs):
